@@ -290,8 +290,28 @@ func (tb TemporalBound) String() string {
 		return "_"
 	case NowBound:
 		return "now"
+	case DurationTemporalBound:
+		return formatDurationBound(tb.Timestamp)
 	default:
 		return "?"
+	}
+}
+
+// formatDurationBound prints a duration bound with the largest unit of the
+// source syntax (d, h, m, s, ms) that represents it exactly.
+func formatDurationBound(nanos int64) string {
+	d := time.Duration(nanos)
+	switch {
+	case d != 0 && d%(24*time.Hour) == 0:
+		return fmt.Sprintf("%dd", d/(24*time.Hour))
+	case d != 0 && d%time.Hour == 0:
+		return fmt.Sprintf("%dh", d/time.Hour)
+	case d != 0 && d%time.Minute == 0:
+		return fmt.Sprintf("%dm", d/time.Minute)
+	case d%time.Second == 0:
+		return fmt.Sprintf("%ds", d/time.Second)
+	default:
+		return fmt.Sprintf("%dms", d/time.Millisecond)
 	}
 }
 
@@ -309,6 +329,8 @@ func (tb TemporalBound) Equals(other TemporalBound) bool {
 		return true // Type equality is enough
 	case NowBound:
 		return true // All 'now' bounds are equal
+	case DurationTemporalBound:
+		return tb.Timestamp == other.Timestamp
 	}
 	return false
 }
